@@ -61,9 +61,19 @@ public:
 
   proxy(proxy &&) noexcept;
 
-  proxy &operator=(proxy const &);
+  /**
+  \brief Assigns the value of the bit referenced by \a other to the bit
+  referenced by this proxy.
 
-  proxy &operator=(proxy &&) noexcept;
+  Like a reference to <code>bool</code>, the proxy is not re-seated:
+  <code>field[a] = field[b]</code> copies the bit.
+  */
+  proxy &operator=(proxy const &other);
+
+  /**
+  \brief Same as the copy assignment.
+  */
+  proxy &operator=(proxy &&other) noexcept;
 
   ~proxy();
 
